@@ -30,17 +30,18 @@ typedef struct
 	int nrand; word* rand_dst; const word* rand_mod; size_t rand_n; gen_i rand_rng; void* rand_state; int rand_ret; word rand_val[NW];
 	int nmul; word* mul_b; const word* mul_a; const void* mul_ec; size_t mul_m; int mul_ret; word mul_d[NW]; word mul_aval[2 * NW]; word mul_out[2 * NW];
 	word* mul2_b; const word* mul2_a; const void* mul2_ec; size_t mul2_m; int mul2_ret; word mul2_d[NW]; word mul2_aval[2 * NW]; word mul2_out[2 * NW];   /* second ecMulA call (key transport) */
-	int naddmul; word* am_b; const void* am_ec; size_t am_k; const word* am_pt[2]; word am_ptval[2][2 * NW]; word am_d[2][NW + 1]; size_t am_m[2]; int am_ret; word am_out[2 * NW];
-	int nison; const word* ison_a; word ison_val[2 * NW]; int ison_ret;
+	int naddmul; word* am_b; const void* am_ec; size_t am_k; const word* am_pt[3]; word am_ptval[3][2 * NW]; word am_d[3][NW + 1]; size_t am_m[3]; int am_ret; word am_out[2 * NW];
+	int nison; int ison_nfrom; const word* ison_a; word ison_val[2 * NW]; int ison_ret;
 	int hid; const void* h_state[ENV_MAX]; word h_id[ENV_MAX]; word h_cnt[ENV_MAX];
 	int nwbl; const void* wbl_key; size_t wbl_len; octet wbl_keyval[32]; octet wbl_in[3][64]; octet wbl_out[3][64]; size_t wbl_count[3]; const void* wbl_ptr[3];
-	int nh; int h_kind[ENV_MAX]; const void* h_ptr[ENV_MAX]; size_t h_len[ENV_MAX]; octet h_val[ENV_MAX][SNAP]; int h_ret; octet h_out[32];
+	int nh; int h_kind[ENV_MAX]; const void* h_ptr[ENV_MAX]; size_t h_len[ENV_MAX]; octet h_val[ENV_MAX][SNAP]; int h_ret; octet h_out[32]; octet h_out4[32];
 	int nzmul; word zmul_a[NW]; size_t zmul_n; word zmul_b[NW]; size_t zmul_m; word zmul_out[2 * NW];
 	int nzmod; word zmod_a[2 * NW + 1]; size_t zmod_n; const word* zmod_mod; size_t zmod_m; word zmod_out[NW];
 	int nam; int am_kind[4]; word amod_a[4][NW]; word amod_b[4][NW]; const word* amod_mod[4]; word amod_out[4][NW];   /* zzAddMod (+1) / zzSubMod (-1) */
 	int nsqr; word sqr_in[2][NW]; word sqr_out[2][NW]; int nfmul; word fmul_a[NW]; word fmul_b[NW]; word fmul_out[NW];   /* field squarings / product */
 	int npow; word pow_a[NW]; word pow_e[NW]; size_t pow_m; word pow_out[NW]; const word* A; const word* B; word A_val[NW]; word B_val[NW]; word p[NW];
 	int nd2; const void* d2_buf1; const void* d2_buf2; size_t d2_count; octet d2_in1[64]; octet d2_in2[16]; octet d2_out1[64]; octet d2_out2[16];   /* belt-kwp decryption */
+	int nneg; word neg_in[NW]; word neg_out[NW]; const word* neg_mod;   /* zzNegMod */
 	int noid; const octet* oid_buf; size_t oid_count; size_t oid_ret;
 } env_t;
 extern env_t E;
